@@ -225,6 +225,12 @@ PROPS["C11"] = {
          "thorough_adds": _c11(_C11["step_t"]), "timeout": 1800, "mem_gb": 10, "cbmc_args": LEAK},
         {"id": "seq", "quick": _c11(_C11["seq2_q"]), "thorough_adds": _c11(_C11["seq2_t"]) + _c11(_C11["seq3_t"]),
          "timeout": 1800, "mem_gb": 10},
+        # the inductive step again as the RELEASE profile compiles it (debug_assert! / cfg(debug_assertions) code absent):
+        # the exact-capacity and one-spare shapes of the u8 vector and the foreign any-shape vector
+        {"id": "step_no_debug_assertions",
+         "quick": ["c11::c11_step_u8_n0_s0", "c11::c11_step_u8_n1_s0", "c11::c11_step_u8_n2_s0", "c11::c11_step_u8_n2_s1",
+                   "c05::c05_foreign_cvec_any_shape_no_growth"],
+         "rustflags": "-C debug-assertions=off", "timeout": 900, "mem_gb": 10, "cbmc_args": LEAK},
     ],
     "negative": ["c11::c11_negative_twin"],
     "expect_panic": dict(
@@ -235,7 +241,8 @@ PROPS["C11"] = {
               "capacity {0,1,2} x element type {u8, u64, zero-sized, heap-owning drop-counted}, post-state compared with an array "
               "model and dropped under Kani's size-matched dealloc model; all 49 two-operation kind sequences with symbolic "
               "arguments from the exact-capacity shape (thorough: 196 two-op and 125 three-op sequences, two shapes, two element "
-              "types); out-of-range insert/remove for every index beyond the length",
+              "types); out-of-range insert/remove for every index beyond the length; four u8 step shapes and the foreign "
+              "any-shape vector (capacity 0..=40) again compiled with -C debug-assertions=off",
     "outside": "len > 4; sequences longer than 3 beyond what the inductive step implies; allocation failure; serde impls",
     "assumptions": KANI_ASSUME + [
         "representation invariant used for the inductive step: (data,len,capacity) are the raw parts of a live Vec<T> - exactly "
